@@ -37,8 +37,11 @@ def engineOp (op : String) (j : Json) : Except String Json := do
     match fldD j "gearbox" Json.null with
     | .null => pure ()
     | .bool true => do
-      want ts "eta_gb" (load rated P)
-      Pe := gearedEnginePower (tbl ts "eta_gb").fn rated P
+      let rgb ← match fldD j "gearbox_rated" Json.null with
+        | .null => pure rated
+        | g => jRat g
+      want ts "eta_gb" (load rgb P)
+      Pe := gearedEnginePower (tbl ts "eta_gb").fn rgb P
     | _ => pure ()
     want ts "bsfc" (load rated Pe)
     let fuel := engineFuel (tbl ts "bsfc").fn rated Pe
